@@ -8,6 +8,7 @@ import (
 
 func TestSim(t *testing.T) {
 	simrun.Main(t, map[string]simrun.World{
+		"C12": WorldC12(),
 		"C14": WorldC14(),
 		"C16": WorldC16(),
 		"C17": WorldC17(),
